@@ -82,6 +82,20 @@ pub proof fn lemma_rloop_step(pre: RLoop, post: RLoop, seq0: int, avail0: int, s
         }
     }
 }
+/// the packets one loop step appends are labelled with this channel's id (both disjuncts of rnew_pkts_ok say so)
+pub proof fn lemma_rloop_step_channel(pre: Seq<Packet>, post: Seq<Packet>, seq: int, channel: u8, id: u64, um: UnackedMessage, now: Duration, resend: Duration,
+    pending: Seq<(u64, Bytes)>)
+    requires all_from_channel(pre, channel), rnew_pkts_ok(pre, post, seq, channel, id, um, now, resend, pending),
+    ensures all_from_channel(post, channel),
+{
+    reveal(rnew_pkts_ok);
+    assert forall|i: int| 0 <= i < post.len() implies packet_channel(#[trigger] post[i]) == Some(channel) by {
+        if i < pre.len() {
+            assert(post.subrange(0, pre.len() as int)[i] == post[i]);
+            assert(post[i] == pre[i]);
+        }
+    }
+}
 /// sending changes no stored byte: the accounting sum is the same
 pub proof fn lemma_accounted_same_msgs(m1: Map<u64, UnackedMessage>, m2: Map<u64, UnackedMessage>)
     requires m1.dom() == m2.dom(), forall|id: u64| #[trigger] m1.contains_key(id) ==> m2[id].msg() == m1[id].msg(),
